@@ -57,7 +57,7 @@ def model_inputs(g, kind):
 
 def run(ck):
     import speckit.noise as NZ
-    ck.build_theorems("Properties/C17.v", deps=["Noise.vo"])
+    ck.build_theorems("Properties/C17.v", deps=["Noise.vo", "NoiseDF.vo"])
     n = 24 if ck.tier == "quick" else 300
     terms, expect = [], []
     dist = {}
